@@ -34,9 +34,18 @@ var rnsNames = []string{rnsN1, rnsN2}
 // rnsGen: the "free" names the Init message generates at heights 3 and 4, registered here as *paid* names of A
 var rnsGen = []string{rnstypes.MakeName(3, 3) + ".jkl", rnstypes.MakeName(4, 4) + ".jkl"}
 
+// rnsFree: the free names Init hands out at the other heights a history can reach (live and locked for their term)
+var rnsFree = func() []string {
+	var o []string
+	for _, h := range []int64{1, 2, 5, 6, 7, 8} {
+		o = append(o, rnstypes.MakeName(int(h), h)+".jkl")
+	}
+	return o
+}()
+
 func (s RNS) watched() []string {
 	if s.Prop == "C08" {
-		return append(append([]string{}, rnsNames...), rnsGen...)
+		return append(append(append([]string{}, rnsNames...), rnsGen...), rnsFree...)
 	}
 	return rnsNames
 }
@@ -154,8 +163,21 @@ func (s RNS) Events(env world.Env, mm mc.Model) []string {
 			for _, y := range others(x) {
 				add("Accept:%s:Exp.jkl:%s", x, y)
 			}
+			// the name written with another character than a dot before its top-level domain (the chain resolves it
+			// to the same name; the bid is a record of its own)
+			add("Bid:%s:exp_jkl:7ujkl", x)
+			add("Cancel:%s:exp_jkl", x)
+			for _, y := range others(x) {
+				add("Accept:%s:exp_jkl:%s", x, y)
+			}
 		} else {
 			add("Init:%s:-", x)
+			// a paid registration of a free name that somebody's Init was given
+			for _, fn := range rnsFree {
+				if _, ok := env.W().App.RnsKeeper.GetNames(env.Ctx(), strings.TrimSuffix(fn, ".jkl"), "jkl"); ok {
+					add("Register:%s:%s", x, fn)
+				}
+			}
 			add("Register:%s:Alpha.jkl", x)
 			// a record of alpha.jkl labelled like the other name, then messages addressed to the record's dotted path
 			add("AddRecordNamed:%s:alpha.jkl", x)
